@@ -103,8 +103,9 @@ CLAIMED["C11"] = {
             "highest usable bits) decoding the encoded rows returns exactly the elements; row count = total number of ranges; the empty MOC; a proved counterexample shows the non-empty-space "
             "hypothesis is necessary. ASCII: model of the 't.. s..' document (split on the two prefixes, 1-D reader per part, maximum of the depths, depth-only last element) and theorem "
             "st_ascii_roundtrip: for every list of elements with valid non-empty parts the reader applied to the writer's document returns (d1, d2, elements) — resting on the 1-D end-to-end "
-            "theorem of C07. Tied to the code both ways on real files and real text (writer rows / text = model, reader = model reader) plus idempotence of re-serialisation. Partial: the JSON "
-            "ST syntax, FITS headers and depth keywords are checked by direct round trips on real bytes (test level), not modelled; u64 only.",
+            "theorems of C07; st_json_roundtrip: the same for the JSON document (single cells only). Tied to the code both ways on real files and real text (writer rows / text = model, reader = "
+            "model reader; the JSON text is reduced to the ASCII document by a fixed lexical mapping) plus idempotence of re-serialisation. Partial: FITS headers and depth keywords are checked by "
+            "direct round trips on real bytes (test level), not modelled; u64 only.",
     "design_ref": "DESIGN.md §4 C11, §10",
     "note": TB + "; bit test modelled arithmetically; ASCII/JSON ST syntaxes tested not proved",
     "technique": "Lean 4 proof (row codec round trip by induction over elements) + differential correspondence on real FITS files + direct round-trip checks for ASCII/JSON",
